@@ -271,8 +271,15 @@ def proof_step(pid, thorough=False):
   axioms = re.findall(r'Axioms:\n((?:.+\n?)+?)(?=\n\S|\Z)', so)
   res['closed'] = closed
   res['axioms_raw'] = axioms
-  res['discharged'] = len(names) if not hits else 0
-  res['ok'] = not hits
+  n_print = len(re.findall(r'^\s*Print Assumptions\s+\w+', src, re.M))
+  res['print_assumptions'] = n_print
+  # every Print Assumptions must answer "Closed under the global context": an axiom anywhere below a property
+  # theorem (or a theorem without its Print Assumptions line) is a failed obligation
+  clean = (closed == n_print and not axioms and 'Axioms:' not in so and n_print >= len(names))
+  res['discharged'] = len(names) if (not hits and clean) else 0
+  res['ok'] = (not hits) and clean
+  if not clean:
+    res['failed_theorem'] = 'assumptions: %d Print Assumptions, %d closed, axioms %r' % (n_print, closed, axioms[:2])
   if thorough:
     t0 = time.time()
     p = subprocess.run(['timeout', '1800', 'coqchk', '-silent', '-o', '-Q', COQ, 'GinV',
